@@ -160,6 +160,12 @@ def gen_plan(S, index, tier):
             if n == 0:
                 continue
             ivs = SP.gen_intervals(S, cfg, n)
+            if S.coin(0.2):
+                # an EMPTY interval (start == end: the notation 'PE()[Phospho]PTIDE' is accepted and written back) -
+                # at the start of another interval (two intervals sharing a start) or anywhere
+                s0 = S.pick([iv[0] for iv in ivs]) if ivs and S.coin(0.6) else S.randint(0, n)
+                ivs.append([s0, s0, False, SP.gen_mods(S, cfg, 1, 1)])
+                ivs.sort(key=lambda iv: (iv[0], iv[1]))
             append = S.coin(0.3) and not m.intervals
             ev = {'act': 'intervals', 'obj': h, 'ivs': ivs, 'append': append,
                   'via': S.pick(['add', 'set', 'moddict']), 'form': S.pick(['tuple', 'interval', 'mixed'])}
@@ -365,6 +371,9 @@ def _gen_perturb(S, cfg, m, h):
                 opts.append((s, e + 1))
             if e - 1 > s:
                 opts.append((s, e - 1))
+            if s == e:
+                # an empty interval can only move as a whole (its position is the one thing it has)
+                opts = [(p, p) for p in (s - 1, s + 1) if 0 <= p <= len(m)]
             if not opts:
                 continue
             ivs[k][0], ivs[k][1] = S.pick(opts)
